@@ -294,11 +294,133 @@ def collate_replay(rep, prop, by_id, res, crashed, runner):
     return stats
 
 
+# ----------------------------------------------------------------------------- C06 torn tail
+
+def run_c06(tier, seed, t0, replay_item=None):
+    prop = "C06"
+    rep = Report(prop, tier, seed, "fault_enumeration")
+    runner = core.build_runner()
+    core.ensure_keys(runner)
+    mc = {"distinct": 0, "generated": 0}
+    if replay_item is not None:
+        items = [replay_item]
+    else:
+        mc = mc_core(tier)   # includes invariant C06_Prefix over every cut of every reachable tape
+        log("[C06] TLC exhaustive: %d distinct states, C06_Prefix holds for every cut of every reachable tape" % mc["distinct"])
+        plan = [("wide", 14), ("deep", 6)] if tier == "quick" else [("wide", 120), ("deep", 60), ("long", 10)]
+        behs, _ = generate_core(seed, plan)
+        rng = random.Random(seed)
+        items = []
+        for i, (gname, steps) in enumerate(behs):
+            cfg, cc, pool = conc.concretise(rng, steps, plain_bias=0.6, allow_pgp=(tier == "thorough" and i % 4 == 0), small=True)
+            if tier == "quick":
+                steps = steps[:8]
+            allbytes = (tier == "thorough" and i % 6 == 0)
+            items.append({"id": "C06-%s-%d-%d" % (gname, seed, i), "cfg": cfg, "conc": cc, "steps": steps, "oracles": ["C06"],
+                          "cuts": "all" if allbytes else "boundaries", "stride": 1 if cfg["rs"] <= 3 else 7,
+                          "maxcuts": (120 if tier == "quick" else (6000 if allbytes else 600))})
+    res, crashed = core.run_batches(runner, "crash", items, per_batch=1 if tier == "thorough" else 2, timeout=3000)
+    by_id = {it["id"]: it for it in items}
+    cuts, regions, infra, hist = 0, {}, [], 0
+    for bid, why in crashed.items():
+        rep.violation("process died while enumerating crash points of %s: %s" % (bid, why[-1500:]), {"kind": "crash", "prop": prop, "item": by_id[bid]})
+    samples = []
+    for bid, r in res.items():
+        if r.get("infra"):
+            infra.append("%s: %s" % (bid, r["infra"]))
+            continue
+        hist += 1
+        cuts += r.get("cuts_run", 0)
+        for k, v in (r.get("regions") or {}).items():
+            regions[k] = regions.get(k, 0) + v
+        samples += (r.get("sample") or [])[:2]
+        unknown = []
+        for f in r.get("findings", []):
+            k = match_known(prop, f, by_id[bid])
+            if k:
+                rep.known[k["id"]] = "%s (%s)" % (k["what"], k["id"])
+            else:
+                unknown.append(f)
+        if unknown:
+            f = unknown[0]
+            rep.violation("%s: %s" % (bid, f["msg"]) + ("\n" + r["dump"][:2000] if r.get("dump") else ""),
+                          {"kind": "crash", "prop": prop, "item": by_id[bid], "findings": unknown[:10]})
+    if infra and len(infra) > len(items) // 2 and not rep.violations:
+        raise Infra("; ".join(infra[:4]))
+    for m in infra[:5]:
+        log("[C06] skipped history: " + m)
+    rep.coverage = {"evaluations": cuts, "distinct_nontrivial": len(regions), "rule": "every generated history is executed on the real filesystem, its final tape is cut at byte offsets (all region boundaries +-1, mid-region, and in the thorough tier every byte/stride of small tapes); each cut is rebuilt with recovery.Index and compared with the rebuild of the last whole record; distinct = region classes (header/data/padding/trailer/between x aligned/unaligned) hit",
+                    "samples": samples[:8] or ["none"], "regions": regions, "histories": hist, "skipped_histories": len(infra),
+                    "tlc_states": mc["distinct"], "exhaustive": False}
+    rep.assumptions = ["a crash is modelled as truncation of the drive file at a byte offset (writes reach the file in order)",
+                       "histories come from the TLC-generated behaviours of STFS.tla; TLC checks C06_Prefix on the block-level model for every cut"]
+    return finish(rep, t0)
+
+
+# ----------------------------------------------------------------------------- C16 open existing
+
+def run_c16(tier, seed, t0, replay_item=None):
+    prop = "C16"
+    rep = Report(prop, tier, seed, "model_checking")
+    runner = core.build_runner()
+    core.ensure_keys(runner)
+    mc = {"distinct": 0, "generated": 0}
+    if replay_item is not None:
+        items = [replay_item]
+    else:
+        mc = mc_core(tier)
+        plan = [("wide", 16), ("deep", 6)] if tier == "quick" else [("wide", 200), ("deep", 80), ("long", 20)]
+        behs, _ = generate_core(seed, plan)
+        rng = random.Random(seed)
+        items = []
+        for i, (gname, steps) in enumerate(behs):
+            cfg, cc, pool = conc.concretise(rng, steps, plain_bias=0.6, allow_pgp=(tier == "thorough" and i % 4 == 0), small=True)
+            items.append({"id": "C16-%s-%d-%d" % (gname, seed, i), "cfg": cfg, "conc": cc,
+                          "steps": steps[:10] if tier == "quick" else steps, "oracles": ["C16"]})
+    res, crashed = core.run_batches(runner, "openexisting", items, per_batch=2, timeout=3000)
+    by_id = {it["id"]: it for it in items}
+    scen, classes, infra, hist, samples = 0, {}, [], 0, []
+    for bid, why in crashed.items():
+        rep.violation("process died while opening variants of %s: %s" % (bid, why[-1500:]), {"kind": "open", "prop": prop, "item": by_id[bid]})
+    for bid, r in res.items():
+        if r.get("infra"):
+            infra.append("%s: %s" % (bid, r["infra"]))
+            continue
+        hist += 1
+        scen += r.get("scenarios", 0)
+        for k, v in (r.get("scenario_classes") or {}).items():
+            classes[k] = classes.get(k, 0) + v
+        samples += (r.get("sample") or [])[:2]
+        unknown = []
+        for f in r.get("findings", []):
+            k = match_known(prop, f, by_id[bid])
+            if k:
+                rep.known[k["id"]] = "%s (%s)" % (k["what"], k["id"])
+            else:
+                unknown.append(f)
+        if unknown:
+            f = unknown[0]
+            rep.violation("%s: %s" % (bid, f["msg"]) + ("\n" + r["dump"][:2000] if r.get("dump") else ""),
+                          {"kind": "open", "prop": prop, "item": by_id[bid], "findings": unknown[:10]})
+    if infra and len(infra) > len(items) // 2 and not rep.violations:
+        raise Infra("; ".join(infra[:4]))
+    rep.coverage = {"states": max(1, mc["distinct"]), "transitions": max(1, mc["generated"]), "traces_validated_against_impl": hist,
+                    "samples": samples[:8] or ["none"], "evaluations": scen, "distinct_nontrivial": len(classes),
+                    "rule": "each generated history is executed; a new filesystem is then constructed+initialised over {intact tape, tape torn in last header / data / trailer (aligned and unaligned)} x {no index, current index, stale index saved after an earlier call}; checked: tape bytes unchanged when a root is on the tape, view = from-scratch rebuild on success, a file written afterwards reads back and survives a rebuild",
+                    "scenario_classes": classes, "histories": hist, "skipped_histories": len(infra)}
+    rep.assumptions = ["torn tails are modelled as truncation of the drive file", "a stale index is a copy of the index database taken after an earlier call of the same history"]
+    return finish(rep, t0)
+
+
 # ----------------------------------------------------------------------------- dispatch
 
 def run(prop, tier, seed, t0):
     if prop in CORE_PROPS:
         return run_core(prop, tier, seed, t0)
+    if prop == "C06":
+        return run_c06(tier, seed, t0)
+    if prop == "C16":
+        return run_c16(tier, seed, t0)
     print("property %s is not claimed by this framework (see MANIFEST.json not_applicable)" % prop, file=sys.stderr)
     return 2
 
@@ -310,6 +432,10 @@ def replay(prop, path):
         it = payload["item"]
         it["oracles"] = [prop]
         return run_core(prop, "quick", 0, t0, replay_item=it)
+    if payload.get("kind") == "open":
+        return run_c16("quick", 0, t0, replay_item=payload["item"])
+    if payload.get("kind") == "crash":
+        return run_c06("quick", 0, t0, replay_item=payload["item"])
     if payload.get("kind") == "trace" and payload.get("spec"):
         rep = Report(prop, "quick", 0, "model_checking")
         runner = core.build_runner()
